@@ -2,6 +2,8 @@ import FxVerif.Model.C08U
 import FxVerif.Model.C08Cache
 import FxVerif.Model.C08Journal
 import FxVerif.Gen.C08c
+import FxVerif.Model.C08Gen
+import FxVerif.Gen.C08d
 import FxVerif.Model.Util
 /-! line-protocol driver for the C08 model (unified, denomination / contract level).
 
@@ -185,6 +187,9 @@ def step (st : St) (line : String) : St × String :=
     match d.toNat?, a.toNat? with
     | some d, some a => msg st (.idx (.updateAlias d a))
     | _, _ => (st, "bad-op")
+  | ["genesis"] =>
+    -- erc20 ExportGenesis, the store wiped, InitGenesis: what the loop body regenerated from the AST does for every pair
+    answer { st with u := { st.u with idx := genesisRoundTrip (restoresAliases FxVerif.Gen.C08d.initGenesis_loop_calls) st.u.idx } } "ok"
   | ["enable", b] =>
     match b.toNat? with
     | some b => msg st (.setEnable (b != 0))
